@@ -233,6 +233,9 @@ impl<T> Drop for Drain<'_, T> {
                 non_null::truncate(self.slice, old_len + self.tail_len);
             }
 
+            // the truncation above has dropped the remaining drained elements, `iter` must not drop them again
+            mem::forget(iter);
+
             return;
         }
 
